@@ -145,6 +145,7 @@ JErr(text, err) ==
   \cup Chk(err.off >= 0 /\ err.off <= Len(text), "C17:offset-in-range")
   \cup Chk(err.off <= Len(err.input) => IsBoundary(err.input, err.off), "C17:offset-on-char-boundary")
   \cup Chk(err.loc.out = "ok", "C17:location-panics")
+  \cup Chk(err.loc.out = "ok" /\ err.diag.out = "ok", "C06:error-accessor-panics")
   \cup Chk((err.loc.out = "ok" /\ err.input = text /\ err.off <= Len(text)) =>
              (err.loc.line = Newlines(text, err.off)
               /\ err.loc.col \in {ColBytes(text, err.off), ColChars(text, err.off)}), "C17:location")
